@@ -16,6 +16,8 @@ import Pandora.Proofs.C05Ctx
 import Pandora.Bridge.C05Engine
 import Pandora.Proofs.C05Inst
 import Pandora.Bridge.C05Wait
+import Pandora.Proofs.C05R6
+import Pandora.Bridge.C05Prov
 
 namespace Pandora.Props.C05
 open Pandora.Model.C05 Pandora.Proofs.C05
@@ -892,5 +894,218 @@ example : ({} : Pass).quiet := by simp [Pass.quiet]
 example : (loop false { left := 3 } [{}, {}, {}]).2 = none := by decide
 
 end Instance
+
+/-! ### round 6: what the return of `Engine.Run` does to the pools that are still running -/
+section Sys2
+open Pandora.Model.C05.Sys
+
+/-- `Engine.Run` returning - with success, a pool failure or the cancellation error, after ANY interleaving - leaves the
+engine context cancelled (its deferred `cancel()`); that context is the one every `pool.Run` was given and the one the
+pool goroutines and the result loop select on (regenerated: `Bridge.C05Engine.engineRun_pool_start`, `engineRun_cancels`) -/
+theorem C05_engine_return_cancels_context (ecfg : EngCfg) (n : Nat) (ecs : List EChoice)
+    (h : (erun ecfg n ecs).result.isSome = true) : (erun ecfg n ecs).ctxDone = true :=
+  (Proofs.C05.Sys.run_inv ecfg n ecs).ctxSome h
+
+/-- COMPOSITION engine → pool: a pool that is still in progress - in ANY state `run cfg cs` - when `Engine.Run` returns
+sees that cancel as the cancel of its parent context (`extCancel`): its run context is cancelled at once, of any
+continuation at most `mu` steps change its state, and when nothing bound to happen is left the pool is `Done`
+(`onWaitDone` called once, so `Engine.Wait` returns; no goroutine left; every gun accounted for) - nobody has to cancel
+anything after `Engine.Run` returned -/
+theorem C05_engine_return_stops_pools (ecfg : EngCfg) (n : Nat) (ecs : List EChoice) (cfg : Cfg)
+    (hfix : cfg.fixWaitDone = true) (cs : List Choice) (hret : (erun ecfg n ecs).result.isSome = true) :
+    (erun ecfg n ecs).ctxDone = true ∧
+    (run cfg (cs ++ [.extCancel])).runC = true ∧
+    (∀ ds, effSteps cfg (run cfg (cs ++ [.extCancel])) ds ≤ mu (run cfg (cs ++ [.extCancel]))) ∧
+    (Quiescent cfg (run cfg (cs ++ [.extCancel])) → Done cfg (run cfg (cs ++ [.extCancel]))) := by
+  have hr : (run cfg (cs ++ [.extCancel])).runC = true := by
+    simp [run, List.foldl_append, step, cancelAll]
+  exact ⟨C05_engine_return_cancels_context ecfg n ecs hret, hr,
+    fun ds => C05_background_terminates cfg _ ds hr, fun hq => C05_wait_returns cfg hfix _ hr hq⟩
+
+-- non-vacuity: two pools, the first fails, `Engine.Run` returns the failure while the second is still running
+example : (erun EngCfg.code 2 [.poolRet 0 (.fail .provider (.err 1)), .send 0, .recv]).result =
+    some (.fail 0 (.fail .provider (.err 1))) ∧
+    (erun EngCfg.code 2 [.poolRet 0 (.fail .provider (.err 1)), .send 0, .recv]).pools[1]? = some .running := by decide
+end Sys2
+
+/-! ### round 6: the ammo provider behind `Choice.provRet` (`Model/C05Prov.lean`), and its composition with the pool -/
+section Provider
+open Pandora.Model.C05.Prov
+
+/-- `JSONAmmoDecoder.Decode` answers `io.EOF` itself - the only answer `DecodeProvider.Run` takes for the regular end of
+the ammo - only when no value starts where it stands and the source has ended: at an ammo boundary, in EVERY situation
+of the decoder -/
+theorem C05_json_eof_only_at_boundary (d : DecIn) (h : jsonDecode d = .eof) :
+    d.noValue = true ∧ d.readErr0 = some true := jsonDecode_eof d h
+
+/-- an ammo that the end of the source cuts short is `ammo is truncated` (an error), never the end of the ammo -/
+theorem C05_json_truncated_is_error (d : DecIn) (h0 : d.noValue = false) (hp : d.parseFails = true)
+    (h1 : d.readErr1 = some true) : jsonDecode d = .unexpectedEof ∧ jsonDecode d ≠ .eof ∧ jsonDecode d ≠ .ok := by
+  rw [jsonDecode_truncated d h0 hp h1]; exact ⟨rfl, by decide, by decide⟩
+
+/-- `DecodeProvider.Run` returns nil ONLY at a regular end: source and decoder were there, every answer before was an
+ammo, and then the limit was reached, or the decoder said `io.EOF` itself, or the context was done at a send - for
+every list of decoder answers, every limit, every moment of the cancel -/
+theorem C05_provider_nil_only_at_regular_end (s : Src) (ctxAt : Option Nat) (ds : List DecRes) (o : Out)
+    (h : decodeRun s ctxAt ds = some o) (hn : o.res = .nil) :
+    s.openOk = true ∧ s.decoderOk = true ∧ (∀ j, j < o.sent → ds[j]? = some .ok) ∧
+    ((s.limit ≠ 0 ∧ s.limit ≤ o.sent) ∨ ds[o.sent]? = some .eof ∨ (ctxAt = some o.sent ∧ ds[o.sent]? = some .ok)) := by
+  unfold decodeRun at h
+  cases ho : s.openOk with
+  | false => simp [ho] at h; subst h; cases hn
+  | true =>
+    cases hd : s.decoderOk with
+    | false => simp [ho, hd] at h; subst h; cases hn
+    | true =>
+      simp only [ho, hd, Bool.not_true, Bool.false_eq_true, if_false, Option.map_eq_some_iff] at h
+      obtain ⟨⟨r, n⟩, hl, rfl⟩ := h
+      simp only at hn
+      subst hn
+      obtain ⟨_, h2, h3⟩ := runLoop_nil s.limit ctxAt ds 0 n hl
+      exact ⟨rfl, rfl, by simpa using h2, by simpa using h3⟩
+
+/-- … and when it fails in the loop, the error it returns IS the decoder's answer at that ammo (wrapped, never
+dropped, never replaced), which was neither an ammo nor `io.EOF` -/
+theorem C05_provider_error_is_cause (s : Src) (ctxAt : Option Nat) (ds : List DecRes) (o : Out) (i : Nat) (e : DecRes)
+    (h : decodeRun s ctxAt ds = some o) (he : o.res = .decodeFailed i e) :
+    ds[i]? = some e ∧ e ≠ .ok ∧ e ≠ .eof ∧ o.sent = i := by
+  unfold decodeRun at h
+  cases ho : s.openOk with
+  | false => simp [ho] at h; subst h; cases he
+  | true =>
+    cases hd : s.decoderOk with
+    | false => simp [ho, hd] at h; subst h; cases he
+    | true =>
+      simp only [ho, hd, Bool.not_true, Bool.false_eq_true, if_false, Option.map_eq_some_iff] at h
+      obtain ⟨⟨r, n⟩, hl, rfl⟩ := h
+      simp only at he
+      subst he
+      obtain ⟨h1, _, h3, h4, h5⟩ := runLoop_err s.limit ctxAt ds 0 n i e hl
+      exact ⟨by simpa using h3, h4, h5, h1⟩
+
+/-- a broken source fails the provider: `j` ammo, then an answer that is neither an ammo nor `io.EOF` (a truncated ammo,
+a read error, malformed JSON), within the limit and not after a cancel: `Run` returns that error at ammo `j` -/
+theorem C05_provider_broken_source_fails (s : Src) (ctxAt : Option Nat) (j : Nat) (e : DecRes) (rest : List DecRes)
+    (ho : s.openOk = true) (hd : s.decoderOk = true) (he1 : e ≠ .ok) (he2 : e ≠ .eof)
+    (hlim : s.limit = 0 ∨ j < s.limit) (hctx : ∀ c, ctxAt = some c → j ≤ c) :
+    decodeRun s ctxAt (List.replicate j .ok ++ e :: rest) = some ⟨.decodeFailed j e, j, true⟩ := by
+  unfold decodeRun
+  have := runLoop_first_bad s.limit ctxAt e rest he1 he2 j 0 (by omega) (by intro c h; have := hctx c h; omega)
+  simp only [Nat.zero_add] at this
+  simp [ho, hd, this]
+
+/-- whenever a provider's `Run` returns - failing to open its source included - the ammo queue is closed, and `Acquire`
+on a closed queue never blocks: an instance parked in `Acquire` (which knows no context) is always let go.  The order
+"deferred close first, then everything that can fail" is regenerated: `Bridge.C05Prov.decodeRun_closes_queue`,
+`grpcRun_closes_sink`, `acquire_is_receive` -/
+theorem C05_provider_return_releases_acquirers :
+    (∀ s ctxAt ds o, decodeRun s ctxAt ds = some o → o.queueClosed = true) ∧
+    (∀ openOk start sent, (grpcRun openOk start sent).queueClosed = true ∧
+      (openOk = false → (grpcRun openOk start sent).res = .openFailed)) ∧
+    (∀ q, (acquire q true).isSome = true) ∧
+    Pandora.Gen.C05Prov.srcDecodeRun.all (Pandora.Bridge.C05Prov.closesFirst "OutQueue") = true ∧
+    Pandora.Gen.C05Prov.srcGrpcRun.all (Pandora.Bridge.C05Prov.closesFirst "Sink") = true := by
+  refine ⟨?_, ?_, ?_, Pandora.Bridge.C05Prov.decodeRun_closes_queue.1, Pandora.Bridge.C05Prov.grpcRun_closes_sink.1⟩
+  · intro s ctxAt ds o h
+    unfold decodeRun at h
+    split at h
+    · cases h; rfl
+    · split at h
+      · cases h; rfl
+      · simp only [Option.map_eq_some_iff] at h
+        obtain ⟨_, _, rfl⟩ := h; rfl
+  · intro openOk start sent
+    cases openOk <;> simp [grpcRun]
+  · intro q; cases q <;> simp [acquire]
+
+/-- COMPOSITION provider → pool (→ engine): whatever the pool did before (`pre`) and does afterwards (`post`), once its
+provider - running at that moment - has returned an error of the provider model, `Pool.Run` never returns success
+unless the caller cancelled; with `C05_no_swallow` the failure carries a recorded component error -/
+theorem C05_provider_failure_fails_pool (cfg : Cfg) (hfix : cfg.fixSelect = true) (pre post : List Choice)
+    (res : RunRes) (herr : res.isErr = true) (hrun : (run cfg pre).prov = .running) :
+    let s := run cfg (pre ++ .provRet res.toRet :: post)
+    s.extC = false → s.result ≠ some .ok := by
+  intro s hext hres
+  have hret : res.toRet = .err 1 := by cases res <;> simp_all [RunRes.toRet, RunRes.isErr]
+  have h1 : (step cfg (run cfg pre) (.provRet res.toRet)).compErrs ≠ [] := by
+    rw [hret]
+    simp only [step, hrun, retAllowed, addErr, and_self, if_true]
+    intro hh
+    exact absurd (List.append_eq_nil_iff.1 hh).2 (by simp)
+  have h2 : s.compErrs ≠ [] := by
+    show (run cfg (pre ++ .provRet res.toRet :: post)).compErrs ≠ []
+    unfold run
+    rw [List.foldl_append, List.foldl_cons]
+    exact compErrs_run cfg post _ h1
+  have hm : s.main = .returned .ok := by
+    simp only [State.result] at hres
+    split at hres
+    · rename_i r hm; cases hres; exact hm
+    · cases hres
+  rcases C05_error_pending_or_failed cfg hfix _ hext h2 with h | ⟨h, _⟩
+  · rw [hm] at h; cases h
+  · rw [hm] at h; cases h
+
+/-- END TO END on the written sources of the harness (`rp:json.<k>.tr|bad|rderr`): `k` complete ammo and then a tail
+that is cut short, malformed or unreadable make `DecodeProvider.Run` fail at ammo `k`, for every `k` -/
+theorem C05_written_source_fails_provider (k : Nat) (t : Tail) (ht : t ≠ .clean) :
+    ∃ e, e ≠ .ok ∧ e ≠ .eof ∧ decodeRun {} none (answers k t) = some ⟨.decodeFailed k e, k, true⟩ := by
+  have hans : answers k t = List.replicate k .ok ++ [jsonDecode (decInAt k t k)] := by
+    unfold answers
+    rw [List.range_succ, List.map_append]
+    congr 1
+    apply List.ext_getElem
+    · simp
+    · intro i h1 h2
+      simp only [List.length_map, List.length_range] at h1
+      simp [decInAt, h1, jsonDecode]
+  refine ⟨jsonDecode (decInAt k t k), ?_, ?_, ?_⟩
+  · cases t <;> simp_all [decInAt, jsonDecode, errOfPtr]
+  · cases t <;> simp_all [decInAt, jsonDecode, errOfPtr]
+  · rw [hans]
+    apply C05_provider_broken_source_fails {} none k _ [] rfl rfl
+    · cases t <;> simp_all [decInAt, jsonDecode, errOfPtr]
+    · cases t <;> simp_all [decInAt, jsonDecode, errOfPtr]
+    · exact Or.inl rfl
+    · intro c h; cases h
+
+/-- … and a complete source ends regularly after exactly `k` ammo -/
+theorem C05_written_source_clean_ends (k : Nat) :
+    decodeRun {} none (answers k .clean) = some ⟨.nil, k, true⟩ := by
+  have h := C05_provider_nil_only_at_regular_end
+  have hans : answers k .clean = List.replicate k .ok ++ [.eof] := by
+    unfold answers
+    rw [List.range_succ, List.map_append]
+    congr 1
+    · apply List.ext_getElem
+      · simp
+      · intro i h1 h2
+        simp only [List.length_map, List.length_range] at h1
+        simp [decInAt, h1, jsonDecode]
+    · simp [decInAt, jsonDecode, errOfPtr]
+  rw [hans]
+  unfold decodeRun
+  have : ∀ j n, runLoop 0 none n (List.replicate j .ok ++ [.eof]) = some (.nil, n + j) := by
+    intro j
+    induction j with
+    | zero => intro n; simp [runLoop]
+    | succ j ih => intro n; simp only [List.replicate_succ, List.cons_append, runLoop]; simp [ih (n + 1)]; omega
+  simp [this k 0]
+
+-- non-vacuity
+example : decodeRun {} none [.ok, .ok, .unexpectedEof] = some ⟨.decodeFailed 2 .unexpectedEof, 2, true⟩ := by decide
+example : decodeRun { limit := 2 } none [.ok, .ok, .unexpectedEof] = some ⟨.nil, 2, true⟩ := by decide
+example : decodeRun {} (some 1) [.ok, .ok, .unexpectedEof] = some ⟨.nil, 1, true⟩ := by decide
+example : decodeRun { openOk := false } none [] = some ⟨.openFailed, 0, true⟩ := by decide
+example : decodeRun {} none [.ok, .ok] = none := by decide   -- still in its loop
+example : jsonDecode ⟨true, some true, true, some true⟩ = .eof := by decide
+example : jsonDecode ⟨false, none, true, some true⟩ = .unexpectedEof := by decide
+example : answers 2 .truncated = [.ok, .ok, .unexpectedEof] := by decide
+-- the composition applies: a pool whose provider is running, then fails, then everything else happens
+example : (run Cfg.repaired [.warm (.ok true), .sched none]).prov = .running := by decide
+example : (run Cfg.repaired ([.warm (.ok true), .sched none] ++ .provRet (RunRes.decodeFailed 2 .unexpectedEof).toRet ::
+    [.awaitProv, .errDeliver])).result = some (.fail .provider (.err 1)) := by decide
+
+end Provider
 
 end Pandora.Props.C05
